@@ -838,6 +838,24 @@ def gen_range_end_finds(rng, n):
                 L = max(MINT, min(MAXT, L))
                 yield {"op": "find", "a": fields_of_local(L, rng.choice([0, 999999999]))}
         yield {"op": "find", "a": {"y": I32MAX, "mo": 12, "d": 31, "h": 23, "mi": 59, "s": 60, "ns": 0}}
+    # a forward transition in the last (first) hour of the range: one reading of the transition instant is not representable, so the
+    # search for a local time inside that gap fails - whatever the buffer's length; both searches must fail alike (C17)
+    for _ in range(max(2, n // 6)):
+        jump = rng.choice([3600, 1800, 7200])
+        hi = rng.random() < 0.5
+        if hi:
+            T = MAXT + 1 - rng.choice([1800, 900, 60])
+            ty = [{"off": 0, "dst": 0, "des": B("AAA")}, {"off": jump, "dst": 1, "des": B("BBB")}]
+            Ls = [T + d for d in (0, 1, (MAXT - T) // 2, MAXT - T)]
+        else:
+            T = MINT + rng.choice([900, 60, 1800])
+            ty = [{"off": -jump, "dst": 0, "des": B("AAA")}, {"off": 0, "dst": 1, "des": B("BBB")}]
+            Ls = [MINT + d for d in (0, 1, (T - MINT) // 2, T - MINT - 1)]
+        tail = rng.choice([{"k": "fixed", "t": dict(ty[1])}, {"k": "none"}])
+        tr = [[T, 1]] + ([[T + 10**6, 0]] if tail["k"] == "none" else [])          # never the (ignored) last transition of a zone without a rule
+        yield zone_event({"tr": tr, "ty": ty, "lp": [], "rule": tail})
+        for L in Ls:
+            yield {"op": "find", "a": fields_of_local(L, 0)}
 
 
 def gen_nanos_zone(rng, nz):
@@ -938,6 +956,19 @@ def gen_c14(rng, n):
         ns = rng.choice([0, 1, 999999999, rng.randint(0, 999999999)])
         ty = rand_type(rng, rng.choice(["small", "wide", "wide"]))
         k = rng.random()
+        if i % 25 == 7:
+            # the (seconds, nanoseconds) constructors take the nanoseconds as they are, also beyond one second: "its nanoseconds are
+            # unchanged" and the fields are those of (seconds + offset), through every zoned entry point
+            big = rng.choice([10**9, 10**9 + 1, 2 * 10**9, 2**31 - 1])
+            via = rng.choice(["fromlocal", "zone", "project", "dt"])
+            if via == "fromlocal":
+                yield {"op": "fromlocal", "a": {"t": W(t), "ns": big, "type": ty}}
+            elif via == "zone":
+                yield {"op": "localtime", "a": {"u": W(t), "ns": big}}
+            elif via == "project":
+                yield {"op": "project", "a": {"t": W(t), "ns": big, "type": ty, "via": rng.choice(["dt", "utc"])}}
+            else:
+                yield {"op": "gmtime", "a": {"t": W(t), "ns": big, "via": "dt"}}
         if k < 0.25:
             yield {"op": "fromlocal", "a": {"t": W(t), "ns": ns, "type": ty}}
         elif k < 0.45:
@@ -1303,6 +1334,29 @@ def year_crossing_rule(rng):
     return {"k": "alt", "std": {"off": so, "dst": 0, "des": B("STD")}, "dst": {"off": do, "dst": 1, "des": B("DST")}, "sd": sd, "st": st, "ed": ed, "et": et}
 
 
+def extreme_displacement_rule(rng):
+    """the farthest a yearly instant can lie from its own calendar year: a day at the edge of the year, a time of day within an
+    hour or so of +-7 days AND an offset beyond +-24 h pulling the same way (|time - offset| between 8 days and 8 days 2 h)"""
+    if rng.random() < 0.5:
+        # start of year y+1 falls on December 23rd of year y: first day of the year, time near -167 h, offset near +26 h
+        so = rng.randint(86400, 93599)
+        sd = rng.choice([["J", 1], ["Z", 0], ["M", 1, 1, rng.randint(0, 6)]])
+        st = -rng.randint(597600, 604799)
+        do = so + rng.choice([1200, 3600, -3600])
+        do = max(-89999, min(93599, do))
+        ed, et = rng.choice([["J", 180], ["Z", 200], ["M", 7, 2, 0]]), rng.choice([0, 7200, -3600])
+    else:
+        # end of year y-1 falls on January 8th/9th of year y: last day of the year, time near +167 h, offset near -25 h
+        do = -rng.randint(86400, 89999)
+        ed = rng.choice([["Z", 365], ["J", 365], ["Z", 364], ["M", 12, 5, rng.randint(0, 6)]])
+        et = rng.randint(597600, 604799)
+        so = max(-89999, min(93599, do - rng.choice([3600, 1800, -3600])))
+        sd, st = rng.choice([["J", 100], ["Z", 120], ["M", 4, 2, 0]]), rng.choice([0, 7200, 90000])
+    if so == do:
+        do = so - 1
+    return {"k": "alt", "std": {"off": so, "dst": 0, "des": B("STD")}, "dst": {"off": do, "dst": 1, "des": B("DST")}, "sd": sd, "st": st, "ed": ed, "et": et}
+
+
 def new_year_probes(rng, r):
     y = rng.choice([rng.randint(1971, 2400), 2004, 2021, 2100])
     ny = days_from_civil(y, 1, 1) * DAY
@@ -1341,6 +1395,13 @@ def gen_c04(rng, nrules, do_find=False):
         yield zone_event(z)
         for u in new_year_probes(rng, r):
             yield {"op": "lookup", "a": {"u": W(u), "via": "ref"}}
+    for i in range(max(12, nrules // 10)):
+        r = extreme_displacement_rule(rng)
+        yield zone_event({"tr": [], "ty": [dict(r["std"]), dict(r["dst"])], "lp": [], "rule": r})
+        for y in (rng.randint(1971, 2400), rng.choice([2023, 2024, 2025])):
+            for base in (rule_S(r, y), rule_E(r, y), rule_S(r, y + 1), rule_E(r, y - 1)):
+                for dl in (-1, 0, 1, 1800, -1800):
+                    yield {"op": "lookup", "a": {"u": W(base + dl), "via": "ref"}}
     for t in K2_RULES + K1_RULES + COINCIDENT_RULES:
         yield from gen_rule_zone_session(rng, named_rule(t), with_table=False, do_find=do_find, nprobe=60)
     for i in range(nrules):
@@ -1427,7 +1488,12 @@ def gen_render(rng, n):
         named = {"dst": rng.randint(0, 1), "des": B(rng.choice(["GMT", "WET", "+00", "BST", "UTC", "-00", "ABCDEFG"]))} if rng.random() < 0.33 and off != I32MIN else {}
         if named and rng.random() < 0.4:
             off = rng.choice([0, 0, 1, -1, 59, -59])
-        if k < 0.5:
+        if k < 0.12:
+            # the value comes from a total count of nanoseconds: whole seconds before and after the epoch, counts around the word sizes
+            sec = rng.choice([-1, -2, 0, 1, -86400, rng.randint(-10**10, 10**10), rng.randint(-9 * 10**9, -1), -(2**63) // 10**9, 2**63 // 10**9])
+            N = sec * 10**9 + rng.choice([0, 0, 0, 1, -1, 999999999, 500000000])
+            yield {"op": "rendert", "a": dict({"N": W(N), "off": off}, **named)}
+        elif k < 0.5:
             t = interesting_instant(rng)
             yield {"op": "rendert", "a": dict({"t": W(t), "ns": rng.choice([0, 1, 999999999, 100000000, rng.randint(0, 999999999)]), "off": off}, **named)}
         elif k < 0.53:
